@@ -43,9 +43,13 @@ def run_case(ctx, case):
     tol = None if exact else F(1, 10**9)
     inside = [u for u in us if U[0] <= u <= U[-1]]
     outside = [u for u in us if not (U[0] <= u <= U[-1])]
+    # recorded finding (KNOWN_FINDINGS.txt): a knot vector with two different knot values closer than 1e-6 is accepted by the constructor,
+    # but the evaluation tables are built from tolerance-merged knots while the span search compares exactly
+    ks_ = sorted(set(U))
+    close = any(b_ - a_ < F(1, 10**6) for a_, b_ in zip(ks_[:-1], ks_[1:]))
     m = drv.call("curve.eval", *curve_args(U, P, W), inside)
     d = drv.call("curve.def", *curve_args(U, P, W), inside)
-    if m != d:
+    if m != d and not close:
         rec.mismatch("model eval vs definition (internal)", case, m, d)
     # scalar calls
     for u_exact, u_impl in zip(us, usi):
@@ -54,7 +58,8 @@ def run_case(ctx, case):
         l3(rec, "curveDef")
         if U[0] <= u_exact <= U[-1]:
             if r[0] != "ok":
-                rec.violation("evaluation raised inside the interval", case, u=str(u_exact), observed=r[1])
+                rec.violation("evaluation raised inside the interval", case, u=str(u_exact), observed=r[1],
+                              finding_key=("two-knot-values-closer-than-1e-6" if close else None))
                 continue
             val = pt_canon(r[1])
             want = tuple(mm[1][0])
@@ -69,7 +74,7 @@ def run_case(ctx, case):
             if errkind(r) != "ValueError":
                 rec.violation("parameter outside the interval did not raise ValueError", case, u=str(u_exact), observed=str(r))
     # sequence call: one point per node in order
-    if inside:
+    if inside and not close:
         ins_impl = [ui for ue, ui in zip(us, usi) if U[0] <= ue <= U[-1]]
         # the nodes of a sequence call come in no particular order
         order = list(range(len(inside)))
@@ -113,6 +118,10 @@ def run_case(ctx, case):
 
 def run(ctx):
     rng = ctx["rng"]
+    # corpus: the witness of the recorded finding runs first, every time (two knot values closer than the merge tolerance)
+    e_ = F(1, 10**12)
+    run_case(ctx, ser(dict(kind="eval", U=[F(0)] * 3 + [F(1, 2), F(1, 2) + e_] + [F(1)] * 3, P=[(F(1),), (F(3),), (F(2),), (F(5),), (F(4),)], W=None,
+                           us=[F(1, 4), F(1, 2), F(1, 2) + e_ / 2, F(3, 4)], rep="fraction")))
     n = budget(ctx, 220, 2500)
     for i in range(n):
         rep = rng.choice(["fraction"] * 6 + ["float", "float", "npfloat", "intknots"])
